@@ -1581,6 +1581,8 @@ def balance_stoichiometry(
 
     if 0 in sol:
         raise ValueError("Superfluous species given.")
+    if any(x.is_number and x.is_negative for x in sol):
+        raise ValueError("No balancing with positive coefficients: species on wrong side?")
     if underdetermined:
         if any(x == sympy.nan for x in sol):
             raise ValueError("Failed to balance reaction")
